@@ -444,13 +444,44 @@ func applyBaseline(prog *ssa.Program, all map[*ssa.Function]bool) []string {
 								recvFields["field:"+fldName(rt.Field(i))] = true
 							}
 						}
+						bset := map[string]bool{}
 						for _, k := range b.Features {
+							bset[k] = true
+						}
+						// tiny receiver-bound helpers of the baseline (r.diskPath, r.SyncDir) are what
+						// the function over fields spells out itself
+						for _, hb := range bl.Funcs {
+							if hb.Recv == b.Recv && len(hb.Features) <= 2 && bset["call:"+hb.Name] {
+								delete(bset, "call:"+hb.Name)
+								for _, k := range hb.Features {
+									bset[k] = true
+								}
+							}
+						}
+						for k := range bset {
 							if !recvFields[k] {
 								bs = append(bs, k)
 							}
 						}
 						if s := jaccard(bs, fs); s >= 0.6 {
 							lifted = append(lifted, cand{f, s})
+						}
+					}
+					if len(lifted) > 1 {
+						// several look alike (sibling helpers moved together): the one whose name still
+						// contains the old identifier, or the clear best
+						var named []cand
+						for _, l := range lifted {
+							ln, bn := strings.ToLower(l.f.Name()), strings.ToLower(baseIdent(b.Name))
+							if strings.Contains(ln, bn) || strings.Contains(bn, ln) {
+								named = append(named, l)
+							}
+						}
+						sort.Slice(lifted, func(i, j int) bool { return lifted[i].s > lifted[j].s })
+						if len(named) == 1 {
+							lifted = named
+						} else if lifted[1].s <= lifted[0].s-0.25 {
+							lifted = lifted[:1]
 						}
 					}
 					if len(lifted) == 1 && liftParams(prog, lifted[0].f, b, all) {
@@ -827,6 +858,8 @@ func trivialWrapper(f *ssa.Function) (string, []string, bool) {
 		case *ssa.Return:
 			ret = x
 		case *ssa.FieldAddr, *ssa.UnOp, *ssa.Extract, *ssa.DebugRef:
+		case *ssa.Alloc, *ssa.IndexAddr, *ssa.Store, *ssa.Slice:
+			// packing of the arguments of a variadic callee
 		default:
 			return "", nil, false
 		}
@@ -857,10 +890,17 @@ func trivialWrapper(f *ssa.Function) (string, []string, bool) {
 	}
 	R := NewRenderer(f)
 	var args []string
-	for _, a := range call.Call.Args {
+	actuals, nfix := flattenVariadic(&call.Call)
+	if actuals == nil {
+		return "", nil, false
+	}
+	for i, a := range actuals {
 		t := R.V(a)
 		if !strings.HasPrefix(t, "$") || strings.ContainsAny(t, "()[]{} ") {
 			return "", nil, false
+		}
+		if i >= nfix {
+			t = "v:" + t
 		}
 		args = append(args, t)
 	}
@@ -877,6 +917,63 @@ func trivialWrapper(f *ssa.Function) (string, []string, bool) {
 		return "", nil, false
 	}
 	return short(g.String()), args, true
+}
+
+// flattenVariadic: the arguments of a call with the packed variadic part written out (nfix = number
+// of fixed arguments); nil when the variadic slice is not a literal packing of this call site.
+func flattenVariadic(c *ssa.CallCommon) ([]ssa.Value, int) {
+	sig := c.Signature()
+	if sig == nil || !sig.Variadic() || len(c.Args) == 0 {
+		return c.Args, len(c.Args)
+	}
+	n := len(c.Args) - 1
+	last := c.Args[n]
+	if k, ok := last.(*ssa.Const); ok && k.IsNil() {
+		return c.Args[:n], n
+	}
+	sl, ok := last.(*ssa.Slice)
+	if !ok || sl.Low != nil || sl.High != nil {
+		return nil, 0
+	}
+	al, ok := sl.X.(*ssa.Alloc)
+	if !ok {
+		return nil, 0
+	}
+	at, ok := al.Type().Underlying().(*types.Pointer)
+	if !ok {
+		return nil, 0
+	}
+	arr, ok := at.Elem().Underlying().(*types.Array)
+	if !ok {
+		return nil, 0
+	}
+	elems := make([]ssa.Value, arr.Len())
+	for _, u := range *al.Referrers() {
+		ia, ok := u.(*ssa.IndexAddr)
+		if !ok {
+			continue
+		}
+		k, ok := ia.Index.(*ssa.Const)
+		if !ok || k.Value == nil {
+			return nil, 0
+		}
+		idx := int(k.Int64())
+		for _, w := range *ia.Referrers() {
+			if st, ok := w.(*ssa.Store); ok && st.Addr == ssa.Value(ia) {
+				if idx < 0 || idx >= len(elems) || elems[idx] != nil {
+					return nil, 0
+				}
+				elems[idx] = st.Val
+			}
+		}
+	}
+	for _, e := range elems {
+		if e == nil {
+			return nil, 0
+		}
+	}
+	out := append([]ssa.Value{}, c.Args[:n]...)
+	return append(out, elems...), n
 }
 
 // asBaselineWrapper: the call instruction is a direct call of a function that a baseline wrapper
@@ -897,14 +994,19 @@ func asBaselineWrapper(R *Renderer, c *ssa.CallCommon) (string, []string, bool) 
 			return "", nil, false
 		}
 	}
+	actuals, _ := flattenVariadic(c)
+	if actuals == nil {
+		return "", nil, false
+	}
 	for _, w := range ws {
-		if len(w.WrapArgs) != len(c.Args) {
+		if len(w.WrapArgs) != len(actuals) {
 			continue
 		}
 		params := make([]string, w.NParams)
 		ok := true
 		for i, pat := range w.WrapArgs {
-			actual := R.V(c.Args[i])
+			pat = strings.TrimPrefix(pat, "v:")
+			actual := R.V(actuals[i])
 			// pat = "$k" or "$k.path"
 			k, path := 0, ""
 			j := 1
